@@ -23,10 +23,13 @@ func verifDir() string {
 	return "/verif"
 }
 
-func binPath(race bool) string {
+func binPath(race, pre bool) string {
 	dir := os.Getenv("RUXSIM_BIN_DIR")
 	if dir == "" {
 		dir = filepath.Join(verifDir(), "out", "bin")
+	}
+	if pre {
+		return filepath.Join(dir, "ruxsim-pre")
 	}
 	if race {
 		return filepath.Join(dir, "ruxsim-race")
@@ -183,6 +186,18 @@ func cmdCheck(args []string) int {
 			agg.seeds = append(agg.seeds, sd)
 		}
 		agg.wall = time.Since(t0).Seconds()
+		if p.Pre && agg.runs >= 20 {
+			var hits int64
+			for k, v := range agg.probes {
+				if strings.HasPrefix(k, "site:p.") {
+					hits += v
+				}
+			}
+			if hits == 0 {
+				fmt.Fprintf(os.Stderr, "ruxsim: profile %s/%s reached no statement-level yield site: the -pre binary was not built against the instrumented copy\n", p.Prop, p.Name)
+				return 2
+			}
+		}
 		aggs = append(aggs, agg)
 		found = append(found, fv...)
 		fmt.Printf("profile %s/%s: %d runs, %d steps, %d distinct interleavings, %d violations reported, %.1fs\n",
@@ -312,7 +327,7 @@ func runWorker(p *Profile, seed uint64, from, to, stride, offset int) (*WorkerSt
 	if offset == 0 && from == 0 {
 		samples = 3
 	}
-	cmd := exec.Command(binPath(p.Race), "worker", "-prop", p.Prop, "-profile", p.Name,
+	cmd := exec.Command(binPath(p.Race, p.Pre), "worker", "-prop", p.Prop, "-profile", p.Name,
 		"-seed", fmt.Sprint(seed), "-from", fmt.Sprint(from), "-to", fmt.Sprint(to),
 		"-stride", fmt.Sprint(stride), "-offset", fmt.Sprint(offset), "-samples", fmt.Sprint(samples))
 	cmd.Env = childEnv(p.Race)
@@ -382,7 +397,7 @@ func execInChild(sc *Scenario) ([]Violation, error) {
 	f.Write(sc.JSON())
 	f.Close()
 	defer os.Remove(name)
-	cmd := exec.Command(binPath(sc.Race), "exec", "-file", name)
+	cmd := exec.Command(binPath(sc.Race, sc.Pre), "exec", "-file", name)
 	cmd.Env = childEnv(sc.Race)
 	var stderr bytes.Buffer
 	cmd.Stderr = &stderr
@@ -467,6 +482,18 @@ func minimiseAndConfirm(f foundViol) (string, Violation, bool) {
 	if sc.Race {
 		budget = 240
 	}
+	if sc.Pre {
+		budget = 300 // every candidate is 10-20 times as many hand-offs as a cooperative run
+	}
+	if sc.Pre && sc.PreRate > 0 && len(f.wv.Switches) > 0 {
+		// the random walk as the explicit list of the switches it made: same execution, and the
+		// shrinker can drop points one by one (kept only if the violation persists in that form)
+		c := sc.Clone()
+		c.Points, c.PreRate, c.PreSeed = f.wv.Switches, 0, 0
+		if oracle(c) {
+			sc = c
+		}
+	}
 	small := Shrink(sc, oracle, budget)
 	var got *Violation
 	for i := 0; i < 2*attempts && got == nil; i++ {
@@ -537,6 +564,7 @@ func writeEvidence(prop, tier string, seed uint64, aggs []*profAgg, nviol int, k
 	type profEv struct {
 		Profile       string           `json:"profile"`
 		Race          bool             `json:"race_detector"`
+		Pre           bool             `json:"statement_level_preemption"`
 		FaultProfile  bool             `json:"fault_injecting"`
 		Runs          int              `json:"runs"`
 		Requests      int64            `json:"requests_or_operations"`
@@ -558,7 +586,7 @@ func writeEvidence(prop, tier string, seed uint64, aggs []*profAgg, nviol int, k
 	rules := []string{}
 	faultTotal := map[string]int64{}
 	for _, a := range aggs {
-		e := profEv{Profile: a.prof.Name, Race: a.prof.Race, FaultProfile: a.prof.Faulty, Runs: a.runs, Requests: a.requests, Steps: a.steps,
+		e := profEv{Profile: a.prof.Name, Race: a.prof.Race, Pre: a.prof.Pre, FaultProfile: a.prof.Faulty, Runs: a.runs, Requests: a.requests, Steps: a.steps,
 			Interleavings: len(a.interleave), States: len(a.states), Nontrivial: len(a.nontrivial), Rule: a.prof.Rule,
 			FaultsFired: a.faults, Probes: a.probes, RegRejected: a.rejected, Wall: a.wall}
 		if a.wall > 0 {
@@ -616,6 +644,7 @@ func writeEvidence(prop, tier string, seed uint64, aggs []*profAgg, nviol int, k
 		},
 		"assumptions": []string{
 			"interleavings are explored at yield sites only (harness handler boundaries, writer calls, verif-tagged sites in rux); between two sites a task runs alone",
+			"profiles marked statement_level_preemption run the real package rebuilt from a copy of /repo's working tree in which a yield precedes every statement (instr/): there a task can be preempted between any two statements of rux, not inside one statement or inside the standard library",
 			"seeded sampling, not enumeration: a clean batch is evidence, not proof",
 			"built with -tags verif from /repo's working tree; hooks are no-ops unless the simulator installs callbacks",
 		},
